@@ -300,3 +300,18 @@ func UpgradeTxBy(from common.Address, contract common.Address, nonce uint64, cod
 	}
 	return tx
 }
+
+// SpendUTXOSigned is SpendUTXO for a non-native token: the fee is paid in the native coin by the account that signs.
+func (w *Wallet) SpendUTXOSigned(sources []*types.UTXOSourceEntry, dests []types.DestEntry, token common.Address, fee *big.Int, payer Acct) (*types.UTXOTransaction, error) {
+	tx, ins, mkeys, _, err := types.NewUinTokenTransaction(w.Keys, w.KeyIndex, sources, dests, token, common.EmptyAddress, fee, nil)
+	if err != nil {
+		return nil, err
+	}
+	if err := tx.Sign(types.GlobalSTDSigner, payer.Key); err != nil {
+		return nil, err
+	}
+	if err := types.UInTransWithRctSig(tx, sources, ins, dests, mkeys); err != nil {
+		return nil, err
+	}
+	return tx, nil
+}
